@@ -320,6 +320,37 @@ def hub(rng: random.Random):
     return _unique_coords(Mol(atoms, out, f"hub{k}", "M11"), rng)
 
 
+def ring_salts(rng: random.Random):
+    """Hydrogen-poor multi-fragment molecule: r ring fragments (different sizes, some substituted or fused) plus exactly ONE acyclic fragment,
+    so that #bonds == #atoms - 1 although the graph is no tree; plus variants with other ring/fragment balances."""
+    atoms, bonds = [], []
+
+    def add_cycle(k, sym="C"):
+        off = len(atoms)
+        atoms.extend(Atom(sym) for _ in range(k))
+        bonds.extend((off + i, off + (i + 1) % k, 1) for i in range(k))
+        return off
+    r = rng.randint(2, 4)
+    for _ in range(r):
+        off = add_cycle(rng.randint(3, 7), rng.choice(["C", "C", "C", "N"]))
+        if rng.random() < 0.3:  # a pendant atom keeps the fragment unicyclic
+            atoms.append(Atom(rng.choice(["C", "O"])))
+            bonds.append((off, len(atoms) - 1, 1))
+    mode = rng.choice(["balanced", "balanced", "two-trees", "no-tree"])
+    n_trees = {"balanced": 1, "two-trees": 2, "no-tree": 0}[mode]
+    for _ in range(n_trees):
+        k = rng.randint(1, 3)
+        off = len(atoms)
+        atoms.extend(Atom(rng.choice(["O", "C", "Na", "Cl"])) for _ in range(k))
+        bonds.extend((off + i, off + i + 1, 1) for i in range(k - 1))
+    if rng.random() < 0.3:
+        atoms[rng.randrange(len(atoms))].mass = 13
+    mol = Mol(atoms, bonds, f"ringsalt{len(atoms)}-{mode}", "M12")
+    mol, _ = relabel(mol, rng)
+    mol.cls = "M12"
+    return _unique_coords(mol, rng)
+
+
 # ---------------------------------------------------------------- M4 multi-component
 
 def multi_component(rng: random.Random):
